@@ -34,6 +34,7 @@ RULES = {
     ("validate_fields", 'Duplicate argument "%s" on "%s"'): "dupArg",
     ("validate_fields", 'Expected input type for argument "%s" on "%s" but got "%s"'): "argNotInput",
     ("_validate_resolver_arguments", 'Missing resolver parameter for argument "%s" on "%s"'): "resMissingParam",
+    ("_validate_resolver_arguments", 'Argument "%s" on "%s" collides with a positional resolver parameter'): "resCollides",
     ("_validate_resolver_arguments", 'Resolver parameter for argument "%s" on "%s" must not be positional only'): "resPosOnly",
     ("_validate_resolver_arguments", 'Resolver parameter for optional argument "%s" on "%s" must have a default'): "resNeedsDefault",
     ("_validate_resolver_arguments", 'Resolver for "%s" must accept 3 positional parameters, found (%s)'): "resPositional",
@@ -55,7 +56,9 @@ RULES = {
     ("validate_input_fields", 'Expected input type for field "%s" on "%s" but got "%s"'): "inputFieldNotInput",
 }
 # call sites that only exist once the proposed fix C13-S4-S6 is applied (their absence = unfixed tree)
-FIX_ONLY = {("validate_interfaces", 'Type "%s" can only implement interface types but got "%s"')}
+FIX_ONLY = {("validate_interfaces", 'Type "%s" can only implement interface types but got "%s"'),
+            ("_validate_resolver_arguments", 'Argument "%s" on "%s" collides with a positional resolver parameter')}
+FIX_ONLY_RULES = {"resCollides"}
 # unreachable through `Schema()` (construction raises first); not produced by the model
 NOT_MODELLED = {"notDirective", "enumNotValue"}
 
@@ -257,7 +260,7 @@ def static_rule_table():
         table.setdefault(rule, [])
         if raw not in table[rule]:
             table[rule].append(raw)
-    missing = sorted(set(RULES.values()) - set(table) - NOT_MODELLED)
+    missing = sorted(set(RULES.values()) - set(table) - NOT_MODELLED - FIX_ONLY_RULES)
     if missing:
         _STATIC_WHY[0] = "no call site found for rule(s) %s" % ", ".join(missing)
         return None
@@ -341,6 +344,9 @@ def _single_violation(rule, k):
         oown["resolver"] = ["root, ctx", "**kw"][k]
     elif rule == "resExtraRequired":
         oown["resolver"] = "root, ctx, info, p=None, zz%s=None, *, kw%s" % (sfx, sfx)
+    elif rule == "resCollides":
+        oown["args"] = [A(["info", "ctx"][k], N("Int"))]
+        oown["resolver"] = "root, ctx, info, **kw"
     elif rule == "notInterface":
         fresh({"kind": "object", "name": "Im" + sfx, "desc": None, "interfaces": [O],
                "fields": [F(fn, t1, [A(x, t1)]), F(own, N("Int"), [A("p", N("Int"))])]})
@@ -600,6 +606,71 @@ def specified_directive_names():
     return names
 
 
+def _method(name):
+    return py2lean.find_function(VALIDATION.read_text(), name, cls="SchemaValidator")
+
+
+def _continue_follows(fn, template_part, nth=1):
+    """Is the nth `add_error` call whose message contains `template_part` immediately followed (same block) by `continue`?"""
+    count = 0
+    for node in ast.walk(fn):
+        for field in ("body", "orelse"):
+            block = getattr(node, field, None)
+            if not isinstance(block, list):
+                continue
+            for i, st in enumerate(block):
+                if (isinstance(st, ast.Expr) and isinstance(st.value, ast.Call) and isinstance(st.value.func, ast.Attribute)
+                        and st.value.func.attr == "add_error" and template_part in ast.dump(st.value)):
+                    count += 1
+                    if count == nth:
+                        return i + 1 < len(block) and isinstance(block[i + 1], ast.Continue)
+    raise py2lean.Untranslatable("add_error(%r) #%d not found in %s" % (template_part, nth, fn.name))
+
+
+def validator_config():
+    """Shape of the validator as read from the source (each flag = one decision of the code):
+       mask_type_name   `continue` after "Invalid type name" (the type's members are not examined)
+       mask_duplicate   `continue` after the four "Duplicate ..." errors of fields / arguments / input fields / directive arguments
+       mask_impl_type   `continue` after the interface field type error (argument checks skipped)
+       precise_resolver the resolver-signature rule follows the call `resolver(root, ctx, info, **arguments)` exactly
+       extra_arg_required  additional object field arguments are tested with `arg.required`
+       subscription_checked  `field.subscription_resolver` goes through the resolver-signature rule
+       catches_type_error  a non-callable resolver does not make validation raise
+    """
+    call = _method("__call__")
+    dups = [(_method("validate_directives"), "Duplicate argument"), (_method("validate_fields"), "Duplicate field"),
+            (_method("validate_fields"), "Duplicate argument"), (_method("validate_input_fields"), "Duplicate field")]
+    dflags = [_continue_follows(fn, part) for fn, part in dups]
+    if len(set(dflags)) != 1:
+        raise py2lean.Untranslatable("the duplicate-member branches differ: %r" % dflags)
+    impl = _method("validate_implementation")
+    vra = _method("_validate_resolver_arguments")
+    vf = _method("validate_fields")
+    extra_required = None
+    for n in ast.walk(impl):
+        if isinstance(n, ast.If) and "is of required type" in ast.dump(n):
+            t = n.test
+            if isinstance(t, ast.Attribute) and t.attr == "required":
+                extra_required = True
+            elif isinstance(t, ast.Call) and getattr(t.func, "id", "") == "isinstance" and "NonNullType" in ast.dump(t):
+                extra_required = False
+    if extra_required is None:
+        raise py2lean.Untranslatable("test guarding the extra required argument error not recognised")
+    catches = False
+    for n in ast.walk(vra):
+        if isinstance(n, ast.ExceptHandler) and n.type is not None and "TypeError" in ast.dump(n.type):
+            catches = True
+    return {
+        "mask_type_name": _continue_follows(call, "Invalid type name"),
+        "mask_duplicate": dflags[0],
+        "mask_impl_type": _continue_follows(impl, "expects type", 1),
+        "precise_resolver": "collides with a positional" in ast.dump(vra),
+        "extra_arg_required": extra_required,
+        "subscription_checked": "subscription_resolver" in ast.dump(vf),
+        "catches_type_error": catches,
+    }
+
+
 def lean_str(s):
     return '"' + s.replace("\\", "\\\\").replace('"', '\\"').replace("\n", "\\n") + '"'
 
@@ -669,6 +740,10 @@ def _extract_tables(ctx=None):
            "/-- a replaced / added / removed directive busts the caches (fix C13-T3b) -/",
            "def replaceDirectivesBust : Bool := %s" % ("true" if dbust else "false"),
            "def specifiedDirectives : List String := [%s]" % ", ".join(lean_str(n) for n in specified_directive_names()),
+           "",
+           "/-- shape of `SchemaValidator` (see `validator_config` in harness/corr/C13_extract.py) -/"] + [
+           "def cfg%s : Bool := %s" % ("".join(w.capitalize() for w in k.split("_")), "true" if v else "false")
+           for k, v in validator_config().items()] + [
            "", "/-- the proposed fix C13-S4-S6 is present in the working tree -/",
            "def fixS4S6 : Bool := %s" % ("true" if fix_applied() else "false"),
            "end PyGql.Generated.SchemaValidTables", ""]
